@@ -48,6 +48,28 @@ def setup():
 
     import pulser_simulation.simconfig as sc
 
+    class _Math:
+        """math with isinf / isnan on proxies (an exact real is finite)."""
+
+        def __getattr__(self, n):
+            import math
+
+            return getattr(math, n)
+
+        @staticmethod
+        def isinf(x):
+            import math
+
+            return False if core.is_sym(x) else math.isinf(x)
+
+        @staticmethod
+        def isnan(x):
+            import math
+
+            return False if core.is_sym(x) else math.isnan(x)
+
+    sc.math = _Math()
+
     facade.install(extra_np=(des, ser, nm, rl, br, rg, sc), extra_float=(nm, des, sc), extra_int=(nm, des, sc))
     core.HASH_ZERO[0] = True
 
@@ -133,6 +155,8 @@ def h_simconfig(shape):
         kw = dict(vals)
         if any(NOISE_PARAMS[p][1] in ("SPAM", "amplitude", "doppler") for p in vals):
             kw.update(runs=15, samples_per_run=5)
+        if shape.get("waist"):
+            kw.update(laser_waist=inp.real("laser_waist", 1, 1000), runs=15, samples_per_run=5)
         if shape.get("eff"):
             import numpy as _np
 
@@ -366,6 +390,8 @@ def kernels(tier):
     for n_eff in (1, 2, 3):
         ks.append(("simconfig", dict(params=[], eff=n_eff)))
     ks.append(("simconfig", dict(params=["dephasing_rate"], eff=2)))
+    ks.append(("simconfig", dict(params=["amp_sigma"], waist=True)))
+    ks.append(("simconfig", dict(params=["amp_sigma", "p_false_pos"], waist=True)))
     dev_opts = [[], ["mod"], ["mod", "pjt", "minavg"], ["eom"], ["eom", "eombuf", "eom2", "eomopt"], ["dmm"], ["dmm", "total", "mod"],
                 ["maxt", "seqdur", "runs", "filling"], ["atoms", "radius", "reuse", "propdir"], ["eom", "eomopt"], ["eom", "eom2"], ["dmm", "dmm12"]]
     for opt in dev_opts:
